@@ -650,6 +650,21 @@ static void part_wrap(void) {
 static const int BASE[] = {EV_ADD, EV_RUN, EV_REPLY_OLDEST, EV_DELIVER_ALL, EV_RUN, EV_CLOCK_1, EV_ADD, EV_RUN, EV_REPLY_OLDEST, EV_DELIVER_ALL, EV_RUN, EV_CLOCK_1,
                            EV_ADD, EV_RUN, EV_REPLY_OLDEST, EV_DELIVER_ALL, EV_RUN};
 #define NBASE ((int)(sizeof BASE / sizeof *BASE))
+/* second default schedule: two requests in flight, completed out of order, then a third one that re-uses the freed slot */
+static const int BASE2[] = {EV_ADD, EV_ADD, EV_RUN, EV_REPLY_NEWEST, EV_DELIVER_ALL, EV_RUN, EV_ADD, EV_RUN, EV_REPLY_NEWEST, EV_DELIVER_ALL, EV_RUN, EV_REPLY_OLDEST, EV_DELIVER_ALL, EV_RUN};
+#define NBASE2 ((int)(sizeof BASE2 / sizeof *BASE2))
+static void run_schedule2(const config_t *cfg, int ins_pos, int ins_ev) {
+	int i, n = 0;
+	char *g = g_hist;
+	world_open(cfg);
+	g_cfg = (cfg >= CONFIGS && cfg < CONFIGS + NCONFIGS) ? (int)(cfg - CONFIGS) : -1;
+	for (i = 0; i <= NBASE2 && !W.violated; i++) {
+		if (ins_pos == i) { if (n < 38) g[n++] = EVCH[ins_ev]; g[n] = 0; apply(ins_ev); n_transitions++; }
+		if (i < NBASE2) { if (n < 38) g[n++] = EVCH[BASE2[i]]; g[n] = 0; apply(BASE2[i]); n_transitions++; }
+	}
+	if (!W.violated) drain();
+	world_close();
+}
 static long dfs_runs;
 static void run_schedule(const config_t *cfg, const int *ins_pos, const int *ins_ev, int nins) {
 	int i, k, n = 0;
@@ -739,6 +754,19 @@ static void part_timeouts(void) {
 	}
 }
 
+static void part_dfs2(void) {
+	static const int CFG_IDX[] = {1, 6, 2};
+	int ci, p1, e1;
+	for (ci = 0; ci < 3; ci++) for (p1 = -1; p1 <= NBASE2; p1++) {
+		if (!vf_case_begin("dfs2:cfg%d:ins%d", CFG_IDX[ci], p1)) continue;
+		n_transitions = 0;
+		if (p1 < 0) run_schedule2(&CONFIGS[CFG_IDX[ci]], -1, 0);
+		else for (e1 = 0; e1 < EV_NEVENTS; e1++) run_schedule2(&CONFIGS[CFG_IDX[ci]], p1, e1);
+		vf_count("traces", p1 < 0 ? 1 : EV_NEVENTS); vf_count("transitions", n_transitions); vf_count("dfs_schedules", p1 < 0 ? 1 : EV_NEVENTS);
+		vf_case_end(1);
+	}
+}
+
 static void run(void) {
 	int ci, e1, e2, e3;
 	int depth = VF_THOROUGH ? 8 : 6;
@@ -771,6 +799,7 @@ static void run(void) {
 	free(seen);
 	part_wrap();
 	part_dfs();
+	part_dfs2();
 }
 
 int main(int argc, char **argv) {
